@@ -64,7 +64,6 @@ def run_shard(desc):
                     continue
                 touched = sorted({tuple(it[k]) for it in base for k in ("p", "q")})
                 for g in sorted({touched[0], touched[-1]}):
-                    res["evals"] += 1
                     judge_save_load(base + [{"op": "ground", "p": list(g)}], res)
     elif desc[0] == "SK":
         kind, params = persistable_cases()[desc[1]]
@@ -77,7 +76,6 @@ def run_shard(desc):
                     sym["reverse"] = rev
                 prog = [sym, {"op": "sym", "kind": "resistor", "name": "Rload", "p": [0, 1], "q": [1, 1], "params": {"R": 5.0}}, {"op": "wire", "p": [1, 1], "q": [1, 0]},
                         {"op": "wire", "p": [1, 0], "q": [0, 0]}, {"op": "ground", "p": [0, 0]}]
-                res["evals"] += 1
                 bump(res["hits"], "kind:" + kind)
                 judge_save_load(prog, res, w_list=(0.0, 1.0))
     elif desc[0] == "DL":
@@ -122,7 +120,6 @@ def judge_save_load(prog, res, w_list=(0.0,)):
     from CircuitCalculator.Circuit.solution import ComplexSolution
     case = {"program": prog, "w_list": list(w_list)}
     res["state_keys"].add(hash(c13.key_of(prog)))
-    res["nontrivial"] += 1
     try:
         sch = adapt.build_schematic(prog, {}, "dir")
         circ0 = circuit_translator(sch)
@@ -138,9 +135,11 @@ def judge_save_load(prog, res, w_list=(0.0,)):
         bump(res["skipped"], "original_mistranslated_(C13)")
         return
     seen = [json.dumps(sig0, sort_keys=True)]
+    res["nontrivial"] += 1
     cur = sch
     for cycle in range(1, 5):
         res["transitions"] += 1
+        res["evals"] += 1      # one evaluation = one save/load cycle (or one create_schematic call) judged
         try:
             text = sdl.serialize(cur, "json")
             cur = sdl.deserialize(text, "json")
@@ -328,6 +327,7 @@ def judge_declarative(spec, res, kind_case=False):
         bump(res["hits"], "declarative_kind:" + spec.get("_kind", "?"))
     try:
         sch = create_schematic(data)
+        _close_figures()
     except Exception as e:
         add_violation(res, "declarative_equals_programmatic", case, "a schematic", "%s: %s" % (type(e).__name__, e), "create_schematic raised on a valid list", kind="exception:" + type(e).__name__)
         return
@@ -341,6 +341,15 @@ def judge_declarative(spec, res, kind_case=False):
         add_violation(res, "declarative_equals_programmatic", case, v["expected"], v["observed"], "declarative list does not give the circuit of the equivalent placement program (%s: %s)" % (v["subcheck"], v["msg"]))
         return
     res["fps"] |= tmp["fps"]
+
+
+def _close_figures():
+    """create_schematic draws into a new matplotlib figure each time; release them (worker memory)"""
+    try:
+        import matplotlib.pyplot as plt
+        plt.close("all")
+    except Exception:
+        pass
 
 
 def vacuity(agg, tier):
